@@ -172,3 +172,10 @@ def groups(tier):
   gs.append(("rejects.get_state", g_rejects("get_state")))
   gs.append(("rejects.set_state", g_rejects("set_state")))
   return gs
+
+
+def native_replay(oid, model):
+  """counter-model -> command that drives the real API on a model of the same shape (scenarios/replay_native.py)"""
+  from .common import native_cmd
+
+  return native_cmd("state", model, masked=("none" not in oid.split("#")[0]))
